@@ -2,7 +2,7 @@
 import ast
 
 from .model import AnalysisError
-from .rules import twin, effect, work, feedback, models, misc, state, fresh, pda_rules, build, dispatch, io as iorules, closed, ka_rules, cyk, bound, order, visitor, small_models
+from .rules import twin, effect, work, feedback, models, misc, state, fresh, pda_rules, build, dispatch, io as iorules, closed, ka_rules, cyk, bound, order, visitor, small_models, small_models2
 
 ALG = ['dfa_algorithms', 'nfa_algorithms', 'pda_algorithms', 'tm_algorithms', 'cfg_algorithms', 'regexp_algorithms']
 
@@ -143,6 +143,10 @@ def check_C03(ctx, rep):
 
 
 def check_C04(ctx, rep):
+    # finite models first: a rewritten minimiser that leaves the fragment of the structural rules below is still decided
+    for sp0 in ('dfa_algorithms.dfa_minimize', 'dfa_algorithms.dfa_quotient', 'dfa_algorithms.dfa_hopfcroft'):
+        small_models2.check_minimiser(ctx, rep, ctx.prog.func(sp0))
+    rep.clauses_decided.append('each minimiser, on six model DFAs with every state reachable, returns a valid total DFA over the same alphabet with the same words up to length 5 and exactly the Myhill-Nerode number of states (M13, finite model)')
     rep.clauses_decided += ['placeholder blocks never become states (R-SLOT)', 'refinement loops stop only at a stable partition and every change is registered (R-WORK W5, Hopcroft sub-template)',
                             'input DFA unchanged (R-EFFECT)', 'a state joins / a block is named after a comparison with a representative of that same block (R-WORK.rep)', 'the table of the table-filling minimiser is indexed by the same enumeration of Q where it is filled and where it is read (R-INDEX)']
     rep.not_decided += ['that the stable partition is the Myhill-Nerode partition; equivalence of the result; independence of the language from the choice order']
@@ -269,6 +273,8 @@ def check_C06(ctx, rep):
 
 
 def check_C07(ctx, rep):
+    small_models2.check_nullable(ctx, rep, ctx.prog.func('cfg_algorithms.cfg_nullable_variables'))
+    rep.clauses_decided.append('cfg_nullable_variables (run by the on-the-fly Chomsky conversion of the membership test) returns the least fixpoint of the definition on seven model grammars (M15, finite model)')
     rep.clauses_decided += ['CYK schedule: for n <= 12 every cell is written after the cells it reads and reads exactly the splits of its span (M7)',
                             'diagonal seeding and pair order of the combination step (M7)',
                             'the on-the-fly conversion precedes every use of the rules / start variable and every CYK call (CNF typestate)',
@@ -323,6 +329,8 @@ def _conversion_kernel(ctx, rep):
 
 
 def check_C08(ctx, rep):
+    small_models2.check_nullable(ctx, rep, ctx.prog.func('cfg_algorithms.cfg_nullable_variables'))
+    rep.clauses_decided.append('cfg_nullable_variables returns the least fixpoint of the definition on seven model grammars (M15, finite model)')
     rep.clauses_decided += ['pure twins deep-copy, call the in-place phase and return the copy (R-TWIN)', 'input grammar untouched (R-EFFECT)',
                             'nullable and unit-closure sets are saturated (R-WORK W5)',
                             'the five phases run in the same order in the pipeline, the phase selector and the postcondition table (R-PHASE)',
@@ -554,6 +562,8 @@ def check_C17(ctx, rep):
 
 
 def check_C14(ctx, rep):
+    small_models2.check_remove_unreachable(ctx, rep, ctx.prog.func('dfa_algorithms.dfa_remove_unreachable_states'))
+    rep.clauses_decided.append('dfa_remove_unreachable_states keeps exactly the reachable states, the reachable final states (the initial state included) and their transitions on four model DFAs (M12, finite model)')
     rep.clauses_decided += ['accepting sets are OR/AND/XOR, Q-F, F&reach (M1)', 'edge transformers equal the specification table (M2)',
                             'prefix helpers take prefixes starting with the empty one (M8)', 'totalisation twin pairing (R-TWIN)', 'operands untouched and not shared (R-EFFECT a/b)', 'reachability search discipline (R-WORK)']
     rep.not_decided += ['the reachability argument of dfa_no_extend; exact semantics of the one-line set helpers']
@@ -690,6 +700,9 @@ def check_C19(ctx, rep):
 
 
 def check_C20(ctx, rep):
+    for sp0 in ('dfa_algorithms.dfa_isomorphic', 'dfa_algorithms.dfa_isomorphic1'):
+        small_models2.check_isomorphism(ctx, rep, ctx.prog.func(sp0))
+    rep.clauses_decided.append('both isomorphism tests answer True exactly when a bijection of the reachable states exists on 14 model pairs, among them a state with two partners in either direction (M14, finite model)')
     rep.clauses_decided += ['both explorations terminate and enqueue exactly the unseen pairs (R-WORK W2)',
                             'the relation built is checked in both directions: functional and injective (R-SYM)']
     rep.not_decided += ['that a passing exploration decides isomorphism of the reachable parts']
@@ -798,6 +811,9 @@ def _with_hidden_state(pid, fn):
         fresh.check_epsilon_forwarded(ctx, rep, sfuncs)
         fresh.check_word_symbols(ctx, rep, sfuncs)
         fresh.check_rekey_sites(ctx, rep, sfuncs)
+        from .rules import truth
+        truth.check_sentinel_truthiness(ctx, rep, sfuncs)
+        truth.check_merging_comprehension(ctx, rep, sfuncs)
         # C19 speaks about operands, history and hash order, not about which rules an operation keeps: no equality instances there
         sorts.check_grammar_symbol_sorts(ctx, rep, sfuncs, equalities=(pid != 'C19'))
         rep.clauses_decided.append('the declared sorts State / Symbol / Direction (NewTypes of the repository) are respected in memberships, comparisons, set algebra, mapping keys and arguments inside the operations of this property (R-SORT)')
